@@ -482,3 +482,329 @@ Proof.
   - intros Hn. destruct (IoGuest.find_region L addr) as [r|] eqn:F; [|reflexivity].
     unfold IoGuest.find_region in F. apply find_some in F. destruct F as [Hin Hc]. rewrite (Hn r Hin) in Hc. discriminate.
 Qed.
+
+
+(* ------------------------------------------------------------------ the composed model run_C18 *)
+
+(* ------------------------------------------------------------------ run_effs: only zero-length marks *)
+Definition is_sub (d : Dirty.dop) : Prop := match d with Dirty.DSub _ _ => True | _ => False end.
+
+Lemma derive_chain_app ds1 : forall a ds2,
+  Dirty.derive_chain a (ds1 ++ ds2) =
+  match Dirty.derive_chain a ds1 with Some a' => Dirty.derive_chain a' ds2 | None => None end.
+Proof.
+  induction ds1 as [|d r IH]; intros a ds2; cbn [app Dirty.derive_chain]; [reflexivity|].
+  destruct (Dirty.derive a d); [apply IH|reflexivity].
+Qed.
+Lemma d_sub_kind a o c k a' : Dirty.d_sub a o c k = Some a' -> Dirty.a_kind a' = k /\ Dirty.a_len a' = c.
+Proof.
+  unfold Dirty.d_sub. destruct (checked_add o c); [|discriminate]. destruct (Dirty.a_len a <? n); [discriminate|].
+  intros H; inversion H; subst; split; reflexivity.
+Qed.
+Lemma sub_chain_kind ds : Forall is_sub ds -> forall a a', Dirty.a_kind a = Dirty.KSlice ->
+  Dirty.derive_chain a ds = Some a' -> Dirty.a_kind a' = Dirty.KSlice.
+Proof.
+  induction 1 as [|d r Hd _ IH]; intros a a' K H; cbn [Dirty.derive_chain] in H.
+  - inversion H; subst; exact K.
+  - destruct d; try contradiction. unfold Dirty.derive in H. rewrite K in H.
+    destruct (Dirty.d_sub a o c Dirty.KSlice) as [x|] eqn:E; [|discriminate].
+    apply d_sub_kind in E. apply (IH x a'); [apply E|exact H].
+Qed.
+Lemma sub_chain_last_len pre x nb : Forall is_sub pre -> forall a a', Dirty.a_kind a = Dirty.KSlice ->
+  Dirty.derive_chain a (pre ++ [Dirty.DSub x nb]) = Some a' -> Dirty.a_len a' = nb.
+Proof.
+  intros Hp a a' K H. rewrite derive_chain_app in H.
+  destruct (Dirty.derive_chain a pre) as [b|] eqn:E; [|discriminate].
+  pose proof (sub_chain_kind pre Hp a b K E) as Kb. cbn [Dirty.derive_chain] in H. unfold Dirty.derive in H. rewrite Kb in H.
+  destruct (Dirty.d_sub b x nb Dirty.KSlice) as [y|] eqn:E2; [|discriminate]. inversion H; subst.
+  apply d_sub_kind in E2. apply E2.
+Qed.
+
+Lemma sop_effs_zero rs ri ch o : Forall is_sub ch -> zero_sop o -> Forall mlen0 (sop_effs rs ri ch o).
+Proof.
+  intros Hc Z. unfold sop_effs. destruct (nth_error rs ri) as [r|]; [|constructor].
+  destruct (Dirty.derive_chain (Dirty.root r) ch) as [a|] eqn:E; [|constructor].
+  apply sop_zero; [|exact Z]. exact (sub_chain_kind ch Hc (Dirty.root r) a eq_refl E).
+Qed.
+Lemma sop_effs_ref rs ri ch o : Forall is_sub ch -> Forall mlen0 (sop_effs rs ri (ch ++ [Dirty.DGetRef 0 0]) o).
+Proof.
+  intros Hc. unfold sop_effs. destruct (nth_error rs ri) as [r|]; [|constructor].
+  rewrite derive_chain_app. destruct (Dirty.derive_chain (Dirty.root r) ch) as [a|] eqn:E; [|constructor].
+  pose proof (sub_chain_kind ch Hc (Dirty.root r) a eq_refl E) as K. cbn [Dirty.derive_chain]. unfold Dirty.derive. rewrite K.
+  destruct (Dirty.d_sub a 0 0 Dirty.KRef) as [x|] eqn:E2; [|constructor]. apply d_sub_kind in E2.
+  apply ref_zero; apply E2.
+Qed.
+Lemma sop_effs_arr rs ri ch esz n k (o : Dirty.sop) : Forall is_sub ch -> esz = 0 \/ n = 0 ->
+  o = Dirty.OArrCopyFrom k \/ o = Dirty.OArrCopyTo k ->
+  Forall mlen0 (sop_effs rs ri (ch ++ [Dirty.DGetArr 0 esz n]) o).
+Proof.
+  intros Hc Z O. unfold sop_effs. destruct (nth_error rs ri) as [r|]; [|constructor].
+  rewrite derive_chain_app. destruct (Dirty.derive_chain (Dirty.root r) ch) as [a|] eqn:E; [|constructor].
+  pose proof (sub_chain_kind ch Hc (Dirty.root r) a eq_refl E) as K. cbn [Dirty.derive_chain]. unfold Dirty.derive. rewrite K.
+  destruct ((ISZ_MAX <? n) || (ISZ_MAX <? n * esz)); [constructor|].
+  destruct (Dirty.d_sub a 0 (n * esz) (Dirty.KArr esz n)) as [x|] eqn:E2; [|constructor]. apply d_sub_kind in E2.
+  eapply arr_zero; try apply E2; eauto.
+Qed.
+Lemma copy_vs_effs_zero rs ri chd other :
+  (other = 0 \/ exists pre x, chd = pre ++ [Dirty.DSub x 0] /\ Forall is_sub pre) ->
+  Forall mlen0 (copy_vs_effs rs ri chd other).
+Proof.
+  intros H. unfold copy_vs_effs. destruct (nth_error rs ri) as [r|]; [|constructor].
+  destruct (Dirty.derive_chain (Dirty.root r) chd) as [d|] eqn:E; [|constructor].
+  constructor; [|constructor]. destruct H as [H|[pre [x [Hc Hp]]]].
+  - subst. rewrite N.min_0_l. apply weff_zero.
+  - subst chd. rewrite (sub_chain_last_len pre x 0 Hp (Dirty.root r) d eq_refl E), N.min_0_r. apply weff_zero.
+Qed.
+
+Lemma params_arr c : params_ok c = true -> (c_op c = ZArrCopyTo \/ c_op c = ZArrCopyFrom) -> c_esz c = 0 \/ c_n c = 0.
+Proof.
+  unfold params_ok. intros H [Hop|Hop]; rewrite Hop in H; apply orb_true_iff in H; destruct H as [H|H].
+  1,3: left; apply andb_true_iff in H; destruct H as [H _]; apply N.eqb_eq; exact H.
+  all: right; apply andb_true_iff in H; destruct H as [H _]; apply andb_true_iff in H; destruct H as [H _]; apply N.eqb_eq; exact H.
+Qed.
+
+Lemma acc_effs_zero c rs ri pre x wlen : params_ok c = true -> Forall is_sub pre ->
+  Forall mlen0 (acc_effs c rs ri (pre ++ [Dirty.DSub x (nbytes18 c)]) wlen).
+Proof.
+  intros P Hp.
+  assert (Hs : Forall is_sub (pre ++ [Dirty.DSub x (nbytes18 c)])).
+  { apply Forall_app. split; [exact Hp|repeat constructor]. }
+  unfold acc_effs. destruct (c_op c) eqn:Op; try constructor.
+  - apply sop_effs_zero; [exact Hs|constructor].
+  - apply sop_effs_zero; [exact Hs|constructor].
+  - eapply sop_effs_arr; [exact Hs|apply params_arr; auto|right; reflexivity].
+  - eapply sop_effs_arr; [exact Hs|apply params_arr; auto|left; reflexivity].
+  - apply sop_effs_ref; exact Hs.
+  - apply sop_effs_ref; exact Hs.
+  - apply copy_vs_effs_zero. right. exists pre, x. unfold nbytes18. rewrite Op. split; [reflexivity|exact Hp].
+  - apply copy_vs_effs_zero. left. reflexivity.
+Qed.
+
+Lemma chain0_sub c : Forall is_sub (chain0 c).
+Proof. unfold chain0. destruct (c_layer c); repeat constructor. Qed.
+
+Lemma run_effs_zero c : params_ok c = true -> Forall mlen0 (run_effs c).
+Proof.
+  intros P. unfold run_effs. destruct (c_layer c) eqn:L.
+  1,2: destruct (c_op c) eqn:Hop;
+       try (apply sop_effs_zero; [apply chain0_sub|constructor]);
+       try (destruct (c_sk c =? 2); first [apply sop_effs_zero; [apply chain0_sub|constructor] | constructor]);
+       try (apply acc_effs_zero; [exact P|apply chain0_sub]).
+  destruct (c_op c) eqn:Hop;
+    try (rewrite (gop_zero 0 (dregs c) (c_addr c) (c_k c)) by (first [left; reflexivity | right; left; reflexivity | right; right; left; reflexivity | right; right; right; reflexivity]); constructor); try constructor;
+    try (destruct (Dirty.find_idx (dregs c) (c_addr c) 0) as [[i r]|]; [|constructor];
+         apply (acc_effs_zero c (dregs c) i [] _ _ P); constructor).
+Qed.
+
+
+Lemma true_from_false l : Forall (fun b => b = false) l -> forall i, true_from i l = [].
+Proof. induction 1 as [|b r Hb _ IH]; intros i; cbn [true_from]; [reflexivity|]. rewrite Hb. apply IH. Qed.
+Lemma dregs_clean c : Forall (fun b => b = false) (flat_map Dirty.r_dirty (dregs c)).
+Proof.
+  unfold dregs. induction (c_regs c) as [|p t IH]; cbn [map flat_map]; [constructor|].
+  apply Forall_app. split; [|exact IH]. cbn [Dirty.r_dirty]. apply Forall_forall. intros x Hx. apply repeat_spec in Hx. exact Hx.
+Qed.
+Lemma model_no_marks c : params_ok c = true -> o_dirty (run_C18 c) = [].
+Proof.
+  intros P. unfold run_C18. cbn [o_dirty]. rewrite apply_effs_zero by (apply run_effs_zero; exact P).
+  unfold dirty_idx. apply true_from_false. apply dregs_clean.
+Qed.
+Lemma diff_from_refl l : forall i, diff_from i l l = [].
+Proof. induction l as [|x r IH]; intros i; cbn [diff_from]; [reflexivity|]. rewrite N.eqb_refl. apply IH. Qed.
+
+Definition mem_ok (c : case18) (r : mres) : Prop :=
+  m_heap r = heap0 (c_regs c) /\ m_ext r = 0 /\ m_class r <> 2 /\
+  (must_succeed c = true -> m_class r = 0 /\ (count_stated c = true -> m_count r = 0)).
+
+Lemma wf_params c : wf_case c = true -> params_ok c = true.
+Proof. unfold wf_case. intros H. repeat (apply andb_true_iff in H; destruct H as [H ?]). assumption. Qed.
+
+Lemma ok_of_mem_ok c : wf_case c = true -> mem_ok c (run_mem c) -> ok_C18 c (run_C18 c) = true.
+Proof.
+  intros W [Hh [He [Hc Hs]]]. unfold ok_C18. rewrite (model_no_marks c (wf_params c W)).
+  unfold run_C18. cbn [o_class o_changed o_ext o_count]. rewrite Hh, diff_from_refl, He. cbn [is_nil N.eqb andb].
+  replace (m_class (run_mem c) =? 2) with false by (symmetry; apply N.eqb_neq; exact Hc). cbn [negb andb].
+  destruct (must_succeed c); [|reflexivity]. destruct (Hs eq_refl) as [H0 Hn]. rewrite H0. cbn [N.eqb andb].
+  destruct (count_stated c); [|reflexivity]. rewrite (Hn eq_refl). reflexivity.
+Qed.
+
+Lemma mem_ok_r_ok c h : h = heap0 (c_regs c) -> mem_ok c (r_ok 0 0 h).
+Proof. intros E. subst. repeat split; cbn; try reflexivity. discriminate. Qed.
+Lemma mem_ok_r_err c code h : h = heap0 (c_regs c) -> must_succeed c = false -> mem_ok c (r_err code h).
+Proof. intros E M. subst. repeat split; cbn; try reflexivity; try discriminate; rewrite M in *; discriminate. Qed.
+
+(* group 1: empty buffer / zero-sized object at slice and region level *)
+Lemma run_mem_bytes_sr c : is_bytes_op (c_op c) = true -> c_layer c <> LGuest ->
+  run_mem c = r_ok 0 0 (heap0 (c_regs c)).
+Proof.
+  intros B L. unfold run_mem. rewrite B. destruct (c_layer c); [| |congruence];
+    unfold run_bytes_sr; destruct (c_op c); try discriminate; reflexivity.
+Qed.
+(* group 2: ... at guest level *)
+Lemma repeat_add {A} (x : A) a b : repeat x (a + b) = repeat x a ++ repeat x b.
+Proof. induction a as [|a IH]; cbn; [reflexivity|]. rewrite IH. reflexivity. Qed.
+Lemma gflat_gmem regs : (forall p, In p regs -> True) -> gflat (gmem regs) = heap0 regs.
+Proof.
+  intros _. unfold gflat, gmem, heap0, total. induction regs as [|p t IH]; cbn [map flat_map fold_right]; [reflexivity|].
+  cbn [Guest.rbytes]. rewrite IH, N2Nat.inj_add, repeat_add. reflexivity.
+Qed.
+Lemma run_mem_bytes_g c : is_bytes_op (c_op c) = true -> c_layer c = LGuest ->
+  run_mem c = r_ok 0 0 (heap0 (c_regs c)).
+Proof.
+  intros B L. unfold run_mem. rewrite B, L. unfold run_bytes_g.
+  rewrite <- (gflat_gmem (c_regs c)) by auto.
+  destruct (c_op c); try discriminate; reflexivity.
+Qed.
+
+
+(* group 3: zero-count stream forms at slice and region level *)
+Lemma regs_ok_bounds regs : forall lo, regs_ok lo regs = true ->
+  total regs <= 65536 * N.of_nat (length regs) /\ forall i, snd (nth i regs (0, 0)) <= 65536 /\ moff regs i <= total regs.
+Proof.
+  induction regs as [|[st sz] t IH]; intros lo H.
+  - split; [cbn; lia|]. intros [|i]; cbn; lia.
+  - cbn [regs_ok] in H. repeat (apply andb_true_iff in H; destruct H as [H ?]).
+    destruct (IH _ H0) as [T B]. apply N.leb_le in H2. split.
+    + cbn [total fold_right length snd] in *. unfold total in T. lia.
+    + intros [|i]; cbn [nth snd moff total fold_right]; [unfold total; lia|].
+      destruct (B i) as [B1 B2]. unfold total in *. lia.
+Qed.
+Lemma st_wf_stream0 rd c : c_k c <= 64 -> st_wf (stream0 rd c).
+Proof.
+  intros K. unfold st_wf, stream0. cbn [Io.s_pos Io.s_data]. split; [rewrite W64_val; lia|].
+  assert (E : nlen (repeat SRC (N.to_nat (c_k c))) = c_k c) by (unfold nlen; rewrite repeat_length; lia).
+  destruct rd; [rewrite E, W64_val; lia|]. destruct (c_sk c =? 0); [rewrite E|rewrite nlen_nil]; rewrite W64_val; lia.
+Qed.
+Lemma st_same_refl st : st_same st st = true.
+Proof. unfold st_same. rewrite N.eqb_refl. cbn [andb]. apply andb_true_iff. split; apply list_eqb_eq; reflexivity. Qed.
+Lemma ext_of_refl st : ext_of st st = 0.
+Proof. unfold ext_of. rewrite st_same_refl. reflexivity. Qed.
+
+Lemma s_upto_shape (rd : bool) md sk self addr st m : st_wf st ->
+  exists r, s_upto rd md sk self addr st m 0 = Val ((st, m), r) /\ (r = Io.Ok 0 \/ exists e, r = Io.Err e) /\
+            (addr <= Io.vs_len self -> Io.vs_addr self + addr < W64 -> r = Io.Ok 0).
+Proof.
+  intros Hst. destruct (N.ltb_spec (Io.vs_addr self + addr) W64) as [Ho|Ho].
+  - destruct (N.le_gt_cases addr (Io.vs_len self)) as [Ha|Ha].
+    + exists (Io.Ok 0). split; [apply s_upto_zero; auto|]. split; [left; reflexivity|auto].
+    + destruct (s_upto_beyond rd md sk self addr st m Ha) as [e E]. exists (Io.Err e). split; [exact E|]. split; [right; eexists; reflexivity|lia].
+  - exists (Io.Err Io.VOverflow). split; [|split; [right; eexists; reflexivity|lia]].
+    unfold s_upto, IoGuest.vs_upto, Io.vs_offset, checked_add. destruct (N.ltb_spec (Io.vs_addr self + addr) W64); [lia|reflexivity].
+Qed.
+Lemma s_exact_shape (rd : bool) md sk self addr st m : st_wf st -> addr < W64 ->
+  exists r, s_exact rd md sk self addr st m 0 = Val ((st, m), r) /\ (r = Io.Ok tt \/ exists e, r = Io.Err e) /\
+            (addr <= Io.vs_len self -> Io.vs_addr self + addr < W64 -> r = Io.Ok tt).
+Proof.
+  intros Hst Hw. destruct (N.le_gt_cases addr (Io.vs_len self)) as [Ha|Ha].
+  - destruct (N.ltb_spec (Io.vs_addr self + addr) W64) as [Ho|Ho].
+    + exists (Io.Ok tt). split; [apply s_exact_zero; auto|]. split; [left; reflexivity|auto].
+    + (* the slice exists, its host address does not fit: the default loop's offset(0) reports Overflow or the override succeeds *)
+      unfold s_exact, Io.vs_subslice, checked_add. rewrite N.add_0_r.
+      destruct (N.ltb_spec addr W64); [|lia]. destruct (N.ltb_spec (Io.vs_len self) addr); [lia|].
+      set (sl := {| Io.vs_addr := _; Io.vs_off := _; Io.vs_len := 0 |}).
+      assert (D : forall ze call, Io.exact_volatile ze FUEL call st m sl = Val ((st, m), Io.Err Io.VOverflow)).
+      { intros ze call. unfold Io.exact_volatile, Io.vs_offset, checked_add. rewrite N.add_0_r.
+        destruct (N.ltb_spec (Io.vs_addr sl) W64) as [X|X]; [cbn [sl Io.vs_addr] in X; lia|reflexivity]. }
+      assert (Hv : Io.vs_len sl = 0) by reflexivity.
+      destruct rd; unfold rexact, wexact; destruct sk as [|[p|p|]];
+        try (eexists; split; [apply D|split; [right; eexists; reflexivity|lia]]).
+      * exists (Io.Ok tt). split; [|split; [left; reflexivity|lia]].
+        unfold Io.slice_read_exact_volatile. rewrite Hv.
+        replace (nlen (Io.slice_rem st) <? 0) with false by (symmetry; apply N.ltb_ge; lia).
+        rewrite slice_read_zero by auto. reflexivity.
+      * exists (Io.Ok tt). split; [|split; [left; reflexivity|lia]].
+        pose proof (exact_zero true md 1 st m {| Io.vs_addr := 0; Io.vs_off := Io.vs_off sl; Io.vs_len := 0 |} eq_refl) as X.
+        cbn [Io.vs_addr] in X. specialize (X ltac:(rewrite W64_val; lia) Hst).
+        unfold rexact in X. unfold Io.cursor_read_exact_volatile, Io.slice_read_exact_volatile, Io.slice_read_volatile, Io.copy_to_volatile_slice in *.
+        cbn [Io.vs_len Io.vs_off] in *. exact X.
+      * exists (Io.Ok tt). split; [|split; [left; reflexivity|lia]].
+        unfold Io.mslice_write_all_volatile. rewrite mslice_write_zero by auto. reflexivity.
+  - destruct (s_exact_beyond rd md sk self addr st m Ha) as [e E]. exists (Io.Err e). split; [exact E|]. split; [right; eexists; reflexivity|lia].
+Qed.
+
+
+Lemma wf_case_inv c : wf_case c = true ->
+  (length (c_regs c) <= 4)%nat /\ regs_ok 0 (c_regs c) = true /\
+  (match c_layer c with
+   | LSlice => c_sub_off c + c_sub_len c <= snd (reg_at c)
+   | LRegion => c_sub_off c = 0 /\ c_sub_len c = snd (reg_at c)
+   | LGuest => True end) /\
+  c_addr c < W64 /\ c_n c <= 64 /\ c_k c <= 64 /\ params_ok c = true.
+Proof.
+  unfold wf_case. intros H.
+  apply andb_true_iff in H; destruct H as [H H12]. apply andb_true_iff in H; destruct H as [H H11].
+  apply andb_true_iff in H; destruct H as [H H10]. apply andb_true_iff in H; destruct H as [H H9].
+  apply andb_true_iff in H; destruct H as [H H8]. apply andb_true_iff in H; destruct H as [H H7].
+  apply andb_true_iff in H; destruct H as [H H6]. apply andb_true_iff in H; destruct H as [H H5].
+  apply andb_true_iff in H; destruct H as [H H4].
+  repeat split; auto.
+  - apply Nat.leb_le. exact H4.
+  - destruct (c_layer c); [apply N.leb_le; exact H7| |exact I].
+    apply andb_true_iff in H7. destruct H7 as [X Y]. split; apply N.eqb_eq; assumption.
+  - apply N.ltb_lt. exact H8.
+  - apply N.leb_le. exact H10.
+  - apply N.leb_le. exact H11.
+Qed.
+
+Lemma cslice_bounds c : wf_case c = true -> c_layer c <> LGuest ->
+  VolMem.vs_addr (cslice c) + VolMem.vs_size (cslice c) <= 5 * 65536 /\
+  VolMem.vs_size (cslice c) = match c_layer c with LSlice => c_sub_len c | _ => snd (reg_at c) end.
+Proof.
+  intros W L. destruct (wf_case_inv c W) as [H4 [Hr [Hl _]]].
+  destruct (regs_ok_bounds _ _ Hr) as [T B]. destruct (B (c_ri c)) as [B1 B2].
+  assert (T' : total (c_regs c) <= 4 * 65536) by lia.
+  unfold cslice, reg_at in *. destruct (c_layer c); [| |congruence]; cbn [VolMem.vs_addr VolMem.vs_size]; split; try reflexivity; lia.
+Qed.
+
+Lemma must_stream c : is_stream_op (c_op c) = true -> c_layer c <> LGuest -> must_succeed c = true ->
+  c_addr c < match c_layer c with LSlice => c_sub_len c | _ => snd (reg_at c) end.
+Proof.
+  intros S L M. unfold must_succeed in M.
+  assert (V : valid_addr c = true) by (destruct (c_op c); try discriminate; exact M).
+  unfold valid_addr, reg_at in *. destruct (c_layer c); [| |congruence];
+    apply andb_true_iff in V; destruct V as [V _]; apply N.ltb_lt; exact V.
+Qed.
+
+Lemma run_mem_stream_sr c : wf_case c = true -> is_stream_op (c_op c) = true -> c_layer c <> LGuest ->
+  mem_ok c (run_mem c).
+Proof.
+  intros W S L. destruct (wf_case_inv c W) as [_ [_ [_ [Ha [_ [Hk _]]]]]].
+  destruct (cslice_bounds c W L) as [Bd Sz].
+  unfold run_mem. replace (is_bytes_op (c_op c)) with false by (destruct (c_op c); try discriminate; reflexivity).
+  rewrite S. unfold run_stream. cbv zeta.
+  set (rd := is_read_stream (c_op c)). set (st0 := stream0 rd c). set (h := heap0 (c_regs c)).
+  assert (Hst : st_wf st0) by (apply st_wf_stream0; exact Hk).
+  assert (Good : must_succeed c = true ->
+            c_addr c <= Io.vs_len (to_io (cslice c)) /\ Io.vs_addr (to_io (cslice c)) + c_addr c < W64).
+  { intros M. pose proof (must_stream c S L M) as X. unfold to_io. cbn [Io.vs_len Io.vs_addr].
+    unfold HB, IoGuest.HBASE. change (2 ^ 40) with 1099511627776. rewrite W64_val. rewrite Sz. lia. }
+  assert (Lay : match c_layer c with LGuest => False | _ => True end) by (destruct (c_layer c); auto).
+  destruct (c_layer c) eqn:EL; [| |contradiction].
+  all: destruct (is_exact (c_op c)).
+  all: match goal with
+       | |- context [s_exact] =>
+           destruct (s_exact_shape rd (c_mode c) (c_sk c) (to_io (cslice c)) (c_addr c) st0 h Hst Ha) as [r [E [Sh G]]]
+       | |- context [s_upto] =>
+           destruct (s_upto_shape rd (c_mode c) (c_sk c) (to_io (cslice c)) (c_addr c) st0 h Hst) as [r [E [Sh G]]]
+       end.
+  all: rewrite E; cbn [bind of_outcome snd fst].
+  all: destruct Sh as [Sh|[e Sh]]; subst r; [rewrite ext_of_refl; apply mem_ok_r_ok; reflexivity|].
+  all: apply mem_ok_r_err; [reflexivity|]; destruct (must_succeed c) eqn:M; [|reflexivity];
+       destruct (Good eq_refl) as [G1 G2]; specialize (G G1 G2); discriminate.
+Qed.
+
+
+(* the entry points for which the full checker verdict of the composed model is proved *)
+Definition covered18 (c : case18) : bool :=
+  is_bytes_op (c_op c) || (is_stream_op (c_op c) && match c_layer c with LGuest => false | _ => true end).
+Lemma model_ok_partial_lemma c : wf_case c = true -> covered18 c = true -> ok_C18 c (run_C18 c) = true.
+Proof.
+  intros W C. apply ok_of_mem_ok; [exact W|]. unfold covered18 in C. apply orb_true_iff in C. destruct C as [B|S].
+  - destruct (c_layer c) eqn:L.
+    + rewrite run_mem_bytes_sr by (auto; congruence). apply mem_ok_r_ok. reflexivity.
+    + rewrite run_mem_bytes_sr by (auto; congruence). apply mem_ok_r_ok. reflexivity.
+    + rewrite run_mem_bytes_g by auto. apply mem_ok_r_ok. reflexivity.
+  - apply andb_true_iff in S. destruct S as [S L]. apply run_mem_stream_sr; auto. destruct (c_layer c); congruence.
+Qed.
+Lemma model_no_marks_lemma c : wf_case c = true -> o_dirty (run_C18 c) = [].
+Proof. intros W. apply model_no_marks. apply wf_params. exact W. Qed.
